@@ -524,3 +524,34 @@ fn k_path_mutation_barriers() {
         core::mem::forget(cx);
     }
 }
+
+// ------------------------------------------------------------------------------------------- C10 clause "write barriers never pay debt", stated as the property states it
+fn barriers_credit(lo: u8, hi: u8) {
+    unsafe {
+        let mut cx = Context::new();
+        let c = new_tok(&cx, 1);
+        let p = new_tok(&cx, 0);
+        let sp0 = sym_header(p); let sc0 = sym_header(c);
+        kani::assume(!(is_white(sc0.color) && sc0.nt) || sc0.live);
+        let ph = any_phase(); cx.phase = ph;
+        let c0 = sym_counters(&cx);
+        kani::assume(!(ph == Phase::Mark && sp0.color == GcColor::Black && sp0.nt) || c0.traced >= 1);
+        let form: u8 = kani::any(); kani::assume(form >= lo && form < hi);
+        match form {
+            0 => cx.backward_barrier(p, None), 1 => cx.backward_barrier(p, Some(c)), 2 => cx.backward_barrier_weak(p, c),
+            3 => cx.forward_barrier(None, c), 4 => cx.forward_barrier(Some(p), c),
+            5 => cx.forward_barrier_weak(None, c), _ => cx.forward_barrier_weak(Some(p), c),
+        }
+        let c1 = get_counters(&cx.metrics);
+        assert!(c1.marked <= c0.marked && c1.traced <= c0.traced && c1.remembered == c0.remembered && c1.dropped == c0.dropped && c1.freed == c0.freed
+            && c1.allocated >= c0.allocated, "[metrics] a write barrier earns no credit");
+        core::mem::forget(cx);
+    }
+}
+/// C10 as stated: no backward barrier raises a credit counter or lowers a debit counter
+#[kani::proof]
+fn k_step_backward_barriers_earn_no_credit() { barriers_credit(0, 3) }
+/// the same for the forward barriers.  FAILS on a White child while marking (they mark the child and earn mark_factor credit inside a
+/// callback): known finding F3, listed in known_findings.txt under this row.
+#[kani::proof]
+fn k_step_forward_barriers_earn_no_credit() { barriers_credit(3, 7) }
